@@ -71,6 +71,51 @@ def run(rep, prog, tier):
     r6(rep, prog)
     r7(rep, prog)
     r8(rep, prog)
+    r9(rep, prog)
+
+
+def r9(rep, prog):
+    """a token that starts a new fragment must fit into it"""
+    R = "C19-R9"
+    rep.rule(R, "no fragment is longer than max_num_chars: search_fragments starts a new fragment at a token that does not fit into the current one (FragmentCandidate::new(token.offset_from)) and then adds the token. On that path nothing has compared the token's own length with max_num_chars yet, so between the restart and try_add_token of the same iteration there must be a test that involves max_num_chars and can keep the token out; otherwise any token longer than the limit yields an over-long fragment ('the fragment is ... no longer than the configured number of characters')")
+    b = get_body(rep, prog, R, SN + "search_fragments")
+    if b is None:
+        return
+    heads = [bi for bi, t in b.calls() if (t.get("f") or "").endswith("TokenStream::next")]
+    news = [bi for bi, t in b.calls() if (t.get("f") or "") == SN + "FragmentCandidate::new"]
+    adds = [bi for bi, t in b.calls() if (t.get("f") or "") == SN + "FragmentCandidate::try_add_token"]
+    if not rep.check(len(heads) == 1 and adds, R, "anchors in search_fragments", "next %s, FragmentCandidate::new %s, try_add_token %s" % (heads, news, adds),
+                     "cannot establish: search_fragments no longer has one TokenStream::next loop with a try_add_token", site=b.span):
+        return
+    H = heads[0]
+    from ..rules import natural_loop
+    lp = natural_loop(b, H)
+    hb = H
+    steps = 0
+    while not lp and steps < 4 and len(b.pred(hb)) == 1:
+        hb = b.pred(hb)[0]
+        lp = natural_loop(b, hb)
+        steps += 1
+    restarts = [x for x in news if x in lp]
+    if not rep.check(bool(restarts), R, "the fragment restart inside the loop", "%s" % restarts, "cannot establish: no FragmentCandidate::new inside the token loop of search_fragments", site=b.span):
+        return
+    for r in restarts:
+        ok = False
+        region = set(b.reachable((r,), blocked=frozenset({hb, H} | set(adds)))) | {r}
+        for sb in region:
+            t = b.term(sb)
+            if t["k"] != "switch" or op_local(t["on"]) is None:
+                continue
+            lv = provenance(b, op_local(t["on"]))
+            if ("param", 4) not in lv:
+                continue
+            arms = [tg for _, tg in t["vals"]] + [t.get("else")]
+            reach_add = [bool(set(adds) & (set(b.reachable((tg,), blocked=frozenset({hb, H, sb}))) | {tg})) for tg in arms if tg is not None]
+            if any(reach_add) and not all(reach_add):
+                ok = True
+        rep.check(ok, R, "the token that restarts a fragment is measured against max_num_chars", "a test on max_num_chars lies between the restart and try_add_token",
+                  "search_fragments restarts the fragment at a token that does not fit and adds that token unconditionally: a token longer than max_num_chars on its own (`set_max_num_chars(10)`, "
+                  "`Donaudampfschifffahrtsgesellschaft`) becomes a fragment of 34 characters; also with max_num_chars = 0", site=site(b, r))
 
 
 STR_CUTS = {
